@@ -126,14 +126,16 @@ def trace_stage(eng, objs, k):
         for r, o in nodes:
             if r + o > k or r + o == 0:
                 bad.append("trace-size: yield type of one call has a TypedDict with %d keys at limit %d: %r" % (r + o, k, tr.yield_type))
-        try:
-            stubs = build_module_stubs_from_traces([tr], k)
-            for ms in stubs.values():
-                for n, v in stub_class_sizes(ms.typed_dict_class_stubs):
-                    if v > k or v == 0:
-                        bad.append("trace-stub-size: class %s has %d keys at limit %d (yields%s)" % (n, v, k, " in lists" if wrap else ""))
-        except Exception as e:
-            bad.append("trace-stub: %r" % (e,))
+        from monkeytype.typing import DEFAULT_REWRITER
+        for rname, rw in (("no rewriter", None), ("default rewriter", DEFAULT_REWRITER)):
+            try:
+                stubs = build_module_stubs_from_traces([tr], k, rewriter=rw)
+                for ms in stubs.values():
+                    for n, v in stub_class_sizes(ms.typed_dict_class_stubs):
+                        if v > k or v == 0:
+                            bad.append("trace-stub-size: class %s has %d keys at limit %d (yields%s, %s)" % (n, v, k, " in lists" if wrap else "", rname))
+            except Exception as e:
+                bad.append("trace-stub: %r" % (e,))
     return bad
 
 
